@@ -199,8 +199,8 @@ def run(run_, ctx):
     fm = [f for f in fns if f.name == "fmt_owned_dmt_to_buf" and f.dk == "Fn"]
     if len(fm) == 1:
         ls = summ.lines(summ.summarize(F, fm[0]))
-        st = [l for l in ls if re.search(r"tag\(\*arg1\) == 23\b", l) and "arg3 == True" in l]
-        en = [l for l in ls if re.search(r"tag\(\*arg1\) == 24\b", l) and "arg3 == True" in l]
+        st = [l for l in ls if re.search(r"tag\(\*arg1\) == 23\b", l) and ("arg3 == True" in l or re.search(r"(^if |&& )arg3( &&|:)", l))]
+        en = [l for l in ls if re.search(r"tag\(\*arg1\) == 24\b", l) and ("arg3 == True" in l or re.search(r"(^if |&& )arg3( &&|:)", l))]
         oks = len(st) == 1 and "add_assign(arg2, ((*arg1 as Struct).name" in st[0] and "call(&{closure()}, (&(*arg1 as Struct).data, arg2))" in st[0]
         run_.check(oks, "N", "struct name + fields", "a top-level struct must render its name and hand its data to the field formatter", fm[0].where(), found=st)
         oke = len(en) == 1 and "add_assign(arg2, ((*arg1 as Enum).name" in en[0] and "iter(((*arg1 as Enum).variants" in en[0] and "Iterator>::map(" in en[0]
